@@ -67,6 +67,9 @@ func (s *Session) VerifyAndUpdate(msg *Message) bool {
 }
 
 func (s *Session) verifyHash(msg *Message) bool {
+	if msg.Signature == nil || msg.MessageBody == nil {
+		return false // nothing to verify: an unsigned message cannot belong to a signed session
+	}
 	h := sha256.New()
 	// 1
 	_ = binary.Write(h, binary.BigEndian, int32(1))
@@ -83,6 +86,9 @@ func (s *Session) verifyHash(msg *Message) bool {
 	// Body.LastSeen
 	_ = binary.Write(h, binary.BigEndian, int32(len(msg.LastSeen)))
 	for _, v := range msg.LastSeen {
+		if v == nil {
+			return false
+		}
 		_, _ = h.Write((*v)[:])
 	}
 	return s.PublicKey.VerifyMessage(h.Sum(nil), msg.Signature[:]) == nil
